@@ -8,6 +8,7 @@ import (
 	"encoding/json"
 	"fmt"
 	"sort"
+	"strconv"
 	"strings"
 	"sync"
 	"testing"
@@ -32,6 +33,7 @@ type protoOpts struct {
 	check      string
 	counters   bool // C12 oracle
 	concurrent bool // run the connections concurrently
+	listing    bool // C01/C08: compare 'get @<prefix>' with the recomputation from the model (single connection)
 }
 
 // runProto executes a case; returns labels.
@@ -99,6 +101,11 @@ func runProto(pc *ProtoCase, o protoOpts) (labels map[string]bool, excluded map[
 	if pl := panicLines(lines); len(pl) > 0 {
 		return labels, excluded, fmt.Errorf("the server recovered from a panic while serving: %s", pl[0])
 	}
+	if o.listing && len(models) == 1 {
+		if e := checkListings(srv, models[0], labels); e != nil {
+			return labels, excluded, e
+		}
+	}
 	if pc.EnumDrop != nil {
 		b := pc.EnumDrop.render()
 		for cut := 0; cut <= len(b); cut++ {
@@ -158,6 +165,137 @@ func runProto(pc *ProtoCase, o protoOpts) (labels map[string]bool, excluded map[
 		}
 	}
 	return labels, excluded, nil
+}
+
+// checkListings compares the directory listings served over the protocol with the recomputation from the model.
+func checkListings(srv *testServer, m *pmodel, labels map[string]bool) error {
+	cfg := &srv.cfg
+	depth := 0
+	if cfg.NumBucket == 16 {
+		depth = 1
+	}
+	trees := map[int]*verifkit.RefTree{}
+	tombs := map[int]map[uint64]bool{}
+	for b := 0; b < cfg.NumBucket; b++ {
+		if servedKey(cfg, nil) || cfg.Served == nil || containsInt(cfg.Served, b) {
+			trees[b] = &verifkit.RefTree{Depth: depth, Height: cfg.TreeHeight, Items: map[uint64]verifkit.RefItem{}}
+			tombs[b] = map[uint64]bool{}
+		}
+	}
+	for ks, p := range m.keys {
+		k := []byte(ks)
+		if !validKey(k) || p.state == 0 {
+			continue
+		}
+		h := verifkit.KeyHash(k)
+		b := 0
+		if depth > 0 {
+			b = int(h >> 60)
+		}
+		t := trees[b]
+		if t == nil {
+			continue
+		}
+		switch p.state {
+		case 1:
+			if p.ver == 0 {
+				return nil // a version the model does not know: no exact listing expectation for this case
+			}
+			t.Items[h] = verifkit.RefItem{Ver: p.ver, Vhash: verifkit.Vhash(p.val)}
+		case 2:
+			tombs[b][h] = true
+		default:
+			return nil
+		}
+	}
+	conn := srv.connect("lister")
+	defer conn.CloseInput()
+	list := func(prefix []int) ([]byte, error) {
+		key := "@" + verifkit.PrefixString(prefix)
+		conn.Feed([]byte("get " + key + "\r\n"))
+		if _, err := conn.WaitIdle(idleNet); err != nil {
+			return nil, err
+		}
+		out := conn.TakeOutput()
+		// VALUE @<p> 0 <n>\r\n<body>\r\nEND\r\n
+		l, rest, ok := readLine(out)
+		if !ok {
+			return nil, fmt.Errorf("no reply to get %s", key)
+		}
+		if l == "END" {
+			return []byte{}, nil
+		}
+		f := strings.Split(l, " ")
+		if len(f) != 4 || f[0] != "VALUE" || f[1] != key {
+			return nil, fmt.Errorf("malformed reply to get %s: %q", key, l)
+		}
+		n, err := strconv.Atoi(f[3])
+		if err != nil || n < 0 || len(rest) < n+7 {
+			return nil, fmt.Errorf("malformed reply to get %s: %q", key, l)
+		}
+		return rest[:n], nil
+	}
+	for b, t := range trees {
+		bp := []int{}
+		if depth == 1 {
+			bp = []int{b}
+		}
+		prefixes := [][]int{bp}
+		n := 0
+		for h := range t.Items {
+			if n >= 3 {
+				break
+			}
+			n++
+			full := make([]int, 16)
+			for i := range full {
+				full[i] = verifkit.HexDigit(h, i)
+			}
+			for l := depth + 1; l <= 16; l += 3 {
+				prefixes = append(prefixes, full[:l])
+			}
+			prefixes = append(prefixes, full)
+		}
+		for _, p := range prefixes {
+			got, err := list(p)
+			if err != nil {
+				return err
+			}
+			if err := verifkit.CompareListing(t, p, got, tombs[b]); err != nil {
+				return fmt.Errorf("listing over the protocol, bucket %x: %v", b, err)
+			}
+		}
+	}
+	if depth == 1 {
+		got, err := list([]int{})
+		if err != nil {
+			return err
+		}
+		want := ""
+		for i := 0; i < 16; i++ {
+			var hash uint16
+			var cnt uint32
+			if t := trees[i]; t != nil {
+				hash, cnt = t.NodeHash([]int{i}), t.Count([]int{i})
+			}
+			want += fmt.Sprintf("%x/ %d %d\n", i, hash, int(cnt))
+		}
+		if string(got) != want {
+			return fmt.Errorf("top-level listing over the protocol differs from the aggregate of the served bucket roots:\ngot  %q\nwant %q", got, want)
+		}
+		labels["listed_upper"] = true
+	}
+	labels["listed_over_protocol"] = true
+	return nil
+}
+
+func containsInt(a []int, x int) bool {
+	for _, v := range a {
+		if v == x {
+			return true
+		}
+	}
+	return false
 }
 
 // leakResidue is filled by expectedLeak when known per-command leak findings are active.
@@ -580,7 +718,7 @@ func TestVerif_C12_Counters(t *testing.T) { c12Counters.check(t) }
 // C01 over the text protocol: well-formed commands only, one connection, replies compared with the model.
 var c01Proto = &protoCheck{
 	property: "C01", name: "TestVerif_C01_Protocol",
-	opts: protoOpts{property: "C01", check: "TestVerif_C01_Protocol"},
+	opts: protoOpts{property: "C01", check: "TestVerif_C01_Protocol", listing: true},
 	gen: func(t *rapid.T) *ProtoCase {
 		pc := &ProtoCase{Cfg: genProtoCfg(t)}
 		pc.Cfg.CheckVHash = rapid.IntRange(0, 3).Draw(t, "cvh") == 0
